@@ -66,6 +66,11 @@ ERROR_MESSAGES = [
     "the protocol versio",
     "Unsupported prÖtocol version / protocol versiİon",
     "xprotocol versionx",
+    "",  # falsy message
+    "%s protocol version %d {} {0}",
+    "protocol\nversion",
+    "protocol version\u2028",
+    "x" * 100_000 + " Protocol Version",
 ]
 
 
@@ -78,20 +83,56 @@ def _new_handler():
     return ProtocolHandler(ServerInfo(name="verif-server", version="1.0"), ServerCapabilities())
 
 
+CLIENT_INFO = {
+    "usual": {"name": "verif-client", "version": "1.0"},
+    "absent": ...,
+    "empty-object": {},
+    "null": None,
+    "empty-string": "",
+    "zero": 0,
+    "false": False,
+    "empty-list": [],
+    "empty-name": {"name": "", "version": ""},
+    "hostile": {"name": "%s {} {0} %(x)s\n\u2028'\"\\", "version": "%d", "title": "x" * 2000},
+    "version-inside": {"name": "c", "version": "1", "protocolVersion": "1999-01-01"},
+}
+REQUEST_IDS = [1, 0, -1, "", "0", "1", 2**53, "é\u2028", "%s {} {0}\n", "x" * 5000, None]  # None = initialize sent as a notification
+
+
 def init_request_dict(req, msg_id=1):
     """The initialize request for a `Requested` description.
-    req = {"k":"str","s":..} | {"k":"json","v":<non-string JSON>} | {"k":"absent","shape":..}"""
+    req = {"k":"str","s":..} | {"k":"json","v":<non-string JSON>} | {"k":"absent","shape":..}
+    optional dressing: "ci" (a CLIENT_INFO key), "id" (index into REQUEST_IDS), "layout" ("version-first" | "version-last" | "extras")"""
     d = {"jsonrpc": "2.0", "id": msg_id, "method": "initialize"}
+    if req.get("id") is not None:
+        rid = REQUEST_IDS[req["id"]]
+        if rid is None:
+            del d["id"]
+        else:
+            d["id"] = rid
     base = {"capabilities": {}, "clientInfo": {"name": "verif-client", "version": "1.0"}}
+    ci = CLIENT_INFO[req.get("ci", "usual")]
+    if ci is ...:
+        del base["clientInfo"]
+    else:
+        base["clientInfo"] = ci
     k = req["k"]
-    if k == "str":
-        d["params"] = dict(base, protocolVersion=req["s"])
-    elif k == "json":
-        d["params"] = dict(base, protocolVersion=req["v"])
+    if k in ("str", "json"):
+        v = req["s"] if k == "str" else req["v"]
+        layout = req.get("layout")
+        if layout == "version-first":
+            d["params"] = dict({"protocolVersion": v}, **base)
+        elif layout == "extras":
+            d["params"] = dict({"_meta": {"progressToken": 0}, "zzz": [], "protocol_version": "1999-01-01", "version": "1999-01-01"},
+                               **base, protocolVersion=v, ProtocolVersion="1999-01-01", trailing=None)
+        else:
+            d["params"] = dict(base, protocolVersion=v)
     elif k == "absent":
         shape = req.get("shape", "no-member")
         if shape == "no-member":
             d["params"] = base
+        elif shape == "lookalikes":  # members that are NOT protocolVersion
+            d["params"] = dict(base, protocol_version="1999-01-01", version="1999-01-01", ProtocolVersion="2024-11-05")
         elif shape == "empty-params":
             d["params"] = {}
         elif shape == "null-params":
@@ -113,13 +154,14 @@ def _json_safe(v):
         return {"__repr__": repr(v)[:80]}
 
 
-async def _serve_one(handler, d, session_id=None):
-    """One message through the real handler; observation of the answer and of the session."""
+async def _serve_one(handler, d, session_id=None, want_sid=False):
+    """One message (a dict, or an already parsed message object) through the real handler; observation of the answer and of
+    the session."""
     from chuk_mcp.protocol.messages.json_rpc_message import parse_message
 
     obs = {}
     try:
-        msg = parse_message(d)
+        msg = parse_message(d) if isinstance(d, dict) else d
     except Exception as ex:
         return {"kind": "unparsable", "exc": type(ex).__name__}, None
     try:
@@ -171,38 +213,65 @@ def run_server(cases):
 
 
 def run_server_seq(cases):
-    """case = {"steps": [{"req": .., "carry": None | "prev" | "first" | "bogus"}, ..]}: the initialize
-    requests go to ONE handler in order; `carry` says which session id accompanies the message (as a
-    transport does for a peer that already holds one).  Between two steps a ping travels on the carried
-    session.  Per step: the answer, and what the store holds under the session id returned for that
-    step, read right after the step."""
+    """case = {"steps": [{"req": .., "carry": .., "between": [..], "same_object": bool}, ..]}: the initialize requests go to ONE
+    handler in order.
+      carry    which session id accompanies the message (as a transport does for a peer that already holds one):
+               None | "prev" | "first" | "bogus" (never issued) | "empty" ("") | "deleted" (the previous one, deleted just before) |
+               "cleared" (the previous one, after clear_all_sessions)
+      between  other traffic on the handler before this step: "ping" | "unknown-method" | "initialized" | "unknown-notification"
+               (each on the carried session if there is one)
+      same_object  the very message object of the previous step is delivered again (a duplicated message)
+    Per step: the answer, and what the store holds under the session id returned for THAT step, read right after it."""
     import asyncio
+    from chuk_mcp.protocol.messages.json_rpc_message import parse_message
+
+    between_msgs = {
+        "ping": {"jsonrpc": "2.0", "id": "between-ping", "method": "ping"},
+        "unknown-method": {"jsonrpc": "2.0", "id": 0, "method": "verif/unknown"},
+        "initialized": {"jsonrpc": "2.0", "method": "notifications/initialized"},
+        "unknown-notification": {"jsonrpc": "2.0", "method": "notifications/verif-unknown", "params": {}},
+    }
 
     async def main():
         out = []
         for c in cases:
             handler = _new_handler()
+            sm = handler.session_manager
             sids, steps = [], []
+            last_msg = None
             for i, st in enumerate(c["steps"]):
                 carry = st.get("carry")
                 sid_in = None
-                if carry == "prev" and sids:
+                if carry in ("prev", "deleted", "cleared") and sids:
                     sid_in = sids[-1]
+                    if carry == "deleted":
+                        sm.delete_session(sid_in)
+                    elif carry == "cleared":
+                        sm.clear_all_sessions()
                 elif carry == "first" and sids:
                     sid_in = sids[0]
                 elif carry == "bogus":
                     sid_in = "0" * 32
-                if sid_in is not None:
+                elif carry == "empty":
+                    sid_in = ""
+                for b in st.get("between") or (["ping"] if sid_in else []):
                     try:
-                        await handler.handle_message(
-                            __import__("chuk_mcp.protocol.messages.json_rpc_message", fromlist=["parse_message"]).parse_message(
-                                {"jsonrpc": "2.0", "id": f"ping-{i}", "method": "ping"}), sid_in)
+                        await handler.handle_message(parse_message(between_msgs[b]), sid_in)
+                    except Exception:
+                        pass  # C08's subject
+                before = sm.get_session_count()
+                if st.get("same_object") and last_msg is not None:
+                    d = last_msg
+                else:
+                    d = init_request_dict(st["req"], msg_id=f"init-{i}")
+                    try:
+                        d = parse_message(d)
                     except Exception:
                         pass
-                before = handler.session_manager.get_session_count()
-                o, _ = await _serve_one(handler, init_request_dict(st["req"], msg_id=f"init-{i}"), session_id=sid_in)
+                last_msg = d
+                o, _ = await _serve_one(handler, d, session_id=sid_in, want_sid=True)
                 o["carried"] = carry if sid_in is not None else None
-                o["new_sessions"] = handler.session_manager.get_session_count() - before
+                o["new_sessions"] = sm.get_session_count() - before
                 sid = o.pop("sid", None)
                 o["reused_carried"] = sid is not None and sid == sid_in
                 if sid is not None:
@@ -215,24 +284,89 @@ def run_server_seq(cases):
 
 
 # ---------------------------------------------------------------------------------- client
+HOSTILE_TEXT = [
+    "%", "%s %d", "%(name)s", "{}", "{0}", "{name}", "{", "}", "\n", "a\r\nb", "\u2028", "\u2029", "\u0085", "'", '"', "\\", "\\n",
+    "\x00", "", " ", "\t", "é\U0001F600", "x" * 100_000,
+]
+
+FALSY_RESULTS = {"result-empty-list": [], "result-empty-string": "", "result-zero": 0, "result-false": False, "result-zero-float": 0.0}
+MALFORMED.update(FALSY_RESULTS)
+MALFORMED.update({
+    "version-zero": {"protocolVersion": 0, "capabilities": CAPS, "serverInfo": SINFO},
+    "version-false": {"protocolVersion": False, "capabilities": CAPS, "serverInfo": SINFO},
+    "version-empty-list": {"protocolVersion": [], "capabilities": CAPS, "serverInfo": SINFO},
+    "version-empty-object": {"protocolVersion": {}, "capabilities": CAPS, "serverInfo": SINFO},
+    "version-float": {"protocolVersion": 2025.0618, "capabilities": CAPS, "serverInfo": SINFO},
+    "capabilities-null": {"protocolVersion": "2025-06-18", "capabilities": None, "serverInfo": SINFO},
+    "capabilities-zero": {"protocolVersion": "2025-06-18", "capabilities": 0, "serverInfo": SINFO},
+    "capabilities-empty-list": {"protocolVersion": "2025-06-18", "capabilities": [], "serverInfo": SINFO},
+    "serverinfo-null": {"protocolVersion": "2025-06-18", "capabilities": CAPS, "serverInfo": None},
+    "serverinfo-empty-string": {"protocolVersion": "2025-06-18", "capabilities": CAPS, "serverInfo": ""},
+    "serverinfo-empty-object": {"protocolVersion": "2025-06-18", "capabilities": CAPS, "serverInfo": {}},
+})
+
+# well-formed results around the version member (`extra` of a version answer)
+RESULT_VARIANTS = {
+    "plain": lambda v: {"protocolVersion": v, "capabilities": CAPS, "serverInfo": SINFO},
+    "extra": lambda v: {"protocolVersion": v, "capabilities": CAPS, "serverInfo": SINFO, "instructions": "be nice", "_meta": {"x": None}},
+    "falsy-members": lambda v: {"capabilities": {}, "serverInfo": {"name": "", "version": ""}, "instructions": "", "protocolVersion": v,
+                                "_meta": {}, "extra0": 0, "extraF": False, "extraL": [], "extraN": None},
+    "version-last": lambda v: {"serverInfo": dict(reversed(list(SINFO.items()))), "capabilities": CAPS, "zzz": 1, "protocolVersion": v},
+    "hostile-members": lambda v: {"protocolVersion": v, "capabilities": CAPS, "serverInfo": {"name": "%s {} {0}\n\u2028'\"\\", "version": "%d"},
+                                  "instructions": "%s %d {} {0} %(x)s\r\n\u2028\u2029\u0085"},
+    "long-instructions": lambda v: {"protocolVersion": v, "capabilities": CAPS, "serverInfo": SINFO, "instructions": "y" * 100_000},
+}
+
+
 def _answer_message(ans, msg_id):
     """Scripted peer's answer as the object a transport puts on the read stream."""
     from chuk_mcp.protocol.messages.json_rpc_message import JSONRPCMessage, parse_message
 
     k = ans["k"]
     if k == "version":
-        res = {"protocolVersion": ans["s"], "capabilities": CAPS, "serverInfo": SINFO}
-        if ans.get("extra"):
-            res["instructions"] = "be nice"
-            res["_meta"] = {"x": None}
-        return parse_message({"jsonrpc": "2.0", "id": msg_id, "result": res})
+        variant = ans.get("extra")
+        variant = "extra" if variant is True else (variant or "plain")
+        return parse_message({"jsonrpc": "2.0", "id": msg_id, "result": RESULT_VARIANTS[variant](ans["s"])})
     if k == "malformed":
         return parse_message({"jsonrpc": "2.0", "id": msg_id, "result": MALFORMED[ans["shape"]]})
     if k == "rpc":
+        err = {"code": ans["code"]}
+        if ans.get("msg") is not None:
+            err["message"] = ans["msg"]
+        if "data" in ans:
+            err["data"] = ans["data"]
         if ans.get("msg") is None:
-            return JSONRPCMessage(id=msg_id, error={"code": ans["code"]})
-        return parse_message({"jsonrpc": "2.0", "id": msg_id, "error": {"code": ans["code"], "message": ans["msg"]}})
+            return JSONRPCMessage(id=msg_id, error=err)
+        return parse_message({"jsonrpc": "2.0", "id": msg_id, "error": err})
     raise ValueError(k)
+
+
+NOISE_KINDS = ["notif", "req-other-id", "req-same-id", "resp-other-id", "err-other-id", "batch-with-answer", "resp-twin-id",
+               "resp-prev-id"]
+
+
+def _noise_message(kind, rid, i, sup, prev=None):
+    """Foreign traffic a peer may legitimately put on the read stream before its answer."""
+    from chuk_mcp.protocol.messages.json_rpc_message import parse_message
+
+    good = {"protocolVersion": (sup or REAL)[0], "capabilities": CAPS, "serverInfo": SINFO}
+    if kind == "notif":
+        return parse_message({"jsonrpc": "2.0", "method": "notifications/message", "params": {"level": "info", "data": f"n{i}"}})
+    if kind == "req-other-id":
+        return parse_message({"jsonrpc": "2.0", "id": f"srv-{i}", "method": "ping"})
+    if kind == "req-same-id":  # a server request that happens to reuse the id of our request
+        return parse_message({"jsonrpc": "2.0", "id": rid, "method": "roots/list"})
+    if kind == "resp-other-id":  # a perfectly good result, not ours
+        return parse_message({"jsonrpc": "2.0", "id": f"other-{i}", "result": good})
+    if kind == "resp-prev-id":  # the late answer to the previous attempt on these streams
+        return parse_message({"jsonrpc": "2.0", "id": prev if prev is not None else f"prev-{i}", "result": good})
+    if kind == "resp-twin-id":  # same spelling, other JSON type / near miss
+        return parse_message({"jsonrpc": "2.0", "id": (rid + " ") if isinstance(rid, str) else str(rid), "result": good})
+    if kind == "err-other-id":
+        return parse_message({"jsonrpc": "2.0", "id": f"other-{i}", "error": {"code": -32602, "message": "protocol version"}})
+    if kind == "batch-with-answer":
+        return [parse_message({"jsonrpc": "2.0", "id": rid, "result": good})]
+    raise ValueError(kind)
 
 
 FILLER = {"jsonrpc": "2.0", "method": "notifications/verif-filler"}  # somebody else's message occupying the write buffer
@@ -252,6 +386,7 @@ def _wire(m):
 
 
 def _classify(ex):
+    import anyio
     from chuk_mcp.protocol.types.errors import RetryableError, NonRetryableError, VersionMismatchError
 
     if isinstance(ex, VersionMismatchError):
@@ -262,6 +397,8 @@ def _classify(ex):
         return {"outcome": "rpc", "code": ex.code}
     if isinstance(ex, IndexError):
         return {"outcome": "noversions"}
+    if isinstance(ex, (anyio.EndOfStream, anyio.BrokenResourceError, anyio.ClosedResourceError)):
+        return {"outcome": "transport", "exc": type(ex).__name__}
     return {"outcome": "invalid", "exc": type(ex).__name__}
 
 
@@ -272,6 +409,10 @@ def _tracked_client():
     return StdioClient(StdioParameters(command="verif-no-such-command", args=[]))
 
 
+class _BareClient:
+    """A client object without the tracking hook (the entry point must then just skip it)."""
+
+
 def _tracked_obs(client):
     info = client.get_batching_info()
     pv = info.get("protocol_version")
@@ -280,27 +421,52 @@ def _tracked_obs(client):
                "can_batch": bool(client.batch_processor.can_process_batch([1]))}
 
 
-async def _client_case(loop, c):
+class _Streams:
+    def __init__(self, wbuf=None):
+        import anyio
+
+        self.in_send, self.in_recv = anyio.create_memory_object_stream(math.inf)
+        self.out_send, self.out_recv = anyio.create_memory_object_stream(math.inf if wbuf is None else wbuf)
+        self.prev_ids = []
+
+    def close(self):
+        for s in (self.in_send, self.in_recv, self.out_send, self.out_recv):
+            try:
+                s.close()
+            except Exception:
+                pass
+
+
+async def _client_call(loop, st, c, client):
+    """One call of send_initialize(_with_client_tracking) on the streams `st` with a scripted peer.
+
+    Scenario members of `c` (all optional except sup/pref/ans):
+      at, tie, D            answer tick (relative), tie order, timeout in ticks (None = the default)
+      track                 False | True (StdioClient) | "none" (tracking entry point, client=None) | "bare" (client without the hook)
+      noise                 [[kind, count], ..] foreign messages put on the read stream right before the answer
+      dup                   the answer is delivered twice
+      close_read            the peer closes the read side right after answering
+      wbuf, filler, take    write side: buffer size, a foreign message occupying it, when the peer reads again (None = never,
+                            "refuses" = the peer closes that direction after answering)
+    """
     import anyio
     from chuk_mcp.protocol.messages.initialize.send_messages import (
         send_initialize, send_initialize_with_client_tracking,
     )
 
     loop.tie = c.get("tie", "events")
-    # write side: unbounded by default; `wbuf` = buffer size of the write stream (0 = rendezvous),
-    # `filler` = a foreign message occupies the buffer right after the answer, `take` = ticks after
-    # the answer at which the peer reads the write stream again (None = never)
     backpressure = "wbuf" in c
-    wbuf = c.get("wbuf")
-    in_send, in_recv = anyio.create_memory_object_stream(math.inf)
-    out_send, out_recv = anyio.create_memory_object_stream(math.inf if wbuf is None else wbuf)
     trace, raw = [], []
     obs = {}
+    state = {"done": False}
+    sup_obj = list(c["sup"]) if c.get("sup") is not None else None
+    if c.get("_sup_obj") is not None:  # sequences: the caller's very list object
+        sup_obj = c["_sup_obj"]
 
     def drain():
         while True:
             try:
-                m = out_recv.receive_nowait()
+                m = st.out_recv.receive_nowait()
             except Exception:
                 break
             w, d = _wire(m)
@@ -309,46 +475,72 @@ async def _client_case(loop, c):
             raw.append(d)
 
     def fire():
+        if state["done"]:
+            return
         drain()
-        rid = next((d.get("id") for d in raw if isinstance(d, dict) and d.get("method") == "initialize"), None)
+        rid = next((d.get("id") for d in reversed(raw) if isinstance(d, dict) and d.get("method") == "initialize"), None)
         if rid is None:
             obs.setdefault("harness", []).append("no initialize request on the wire when the answer was due")
             return
-        if c["ans"]["k"] == "silence":
-            return
         try:
-            in_send.send_nowait(_answer_message(c["ans"], rid))
-            trace.append({"w": "answered"})
+            n = 0
+            for kind, count in c.get("noise") or []:
+                for _ in range(count):
+                    n += 1
+                    st.in_send.send_nowait(_noise_message(kind, rid, n, sup_obj, st.prev_ids[-1] if st.prev_ids else None))
+            k = c["ans"]["k"]
+            if k == "closed":
+                st.in_send.close()
+            elif k != "silence":
+                msg = _answer_message(c["ans"], rid)
+                st.in_send.send_nowait(msg)
+                trace.append({"w": "answered"})
+                if c.get("dup"):
+                    st.in_send.send_nowait(_answer_message(c["ans"], rid))
+                if c.get("close_read"):
+                    st.in_send.close()
         except Exception as ex:
-            obs.setdefault("harness", []).append("answer not built: " + repr(ex)[:120])
-        if c.get("filler"):
+            obs.setdefault("harness", []).append("answer not delivered: " + repr(ex)[:120])
+        for _ in range(int(c.get("filler") or 0)):
             try:
-                out_send.send_nowait(FILLER)
+                st.out_send.send_nowait(FILLER)
             except Exception as ex:
                 obs.setdefault("harness", []).append("filler not placed: " + repr(ex)[:120])
+                break
+        if c.get("take") == "refuses":
+            st.out_recv.close()
 
-    if c["ans"]["k"] != "silence" or backpressure:
-        loop.at(loop.ticks + c.get("at", 10), fire)
-    if backpressure and c.get("take") is not None:
-        loop.at(loop.ticks + c.get("at", 10) + c["take"], drain)
+    def take():
+        if not state["done"]:
+            drain()
+
+    at = c.get("at", 10)
+    for _ in range(int(c.get("prefill") or 0)):  # the write buffer already holds foreign messages when the call starts
+        st.out_send.send_nowait(FILLER)
+    if c["ans"]["k"] != "silence" or backpressure or c.get("noise"):
+        loop.at(loop.ticks + at, fire)
+    if backpressure and isinstance(c.get("take"), int):
+        loop.at(loop.ticks + at + c["take"], take)
     kwargs = {}
-    if c.get("sup") is not None:
-        kwargs["supported_versions"] = list(c["sup"])
+    if sup_obj is not None:
+        kwargs["supported_versions"] = sup_obj
     if c.get("pref") is not None:
         kwargs["preferred_version"] = c["pref"]
     if c.get("D") is not None:
         kwargs["timeout"] = c["D"] * vloop.TICK
-    client = _tracked_client() if c.get("track") else None
+    track = c.get("track")
     t0 = loop.ticks
-    # a call that is still pending long after everything scripted has happened is reported as
-    # "blocked" (only possible with a write side that does not take what the client sends)
-    horizon = (c.get("at", 10) + 4 * (c.get("D") or 61440) + 64) * vloop.TICK if backpressure else math.inf
-    with anyio.move_on_after(horizon):
+    import contextlib
+    bound = (anyio.move_on_after((at + 4 * (c.get("D") or 61440) + 64) * vloop.TICK)
+             if (backpressure and c.get("take") != "refuses") else contextlib.nullcontext())
+    with bound:
         try:
-            if c.get("track"):
-                res = await send_initialize_with_client_tracking(in_recv, out_send, client=client, **kwargs)
+            if track == "none":
+                res = await send_initialize_with_client_tracking(st.in_recv, st.out_send, client=None, **kwargs)
+            elif track:
+                res = await send_initialize_with_client_tracking(st.in_recv, st.out_send, client=client, **kwargs)
             else:
-                res = await send_initialize(in_recv, out_send, **kwargs)
+                res = await send_initialize(st.in_recv, st.out_send, **kwargs)
             obs["outcome"] = "ok"
             obs["v"] = _json_safe(getattr(res, "protocolVersion", None))
             obs["type"] = type(res).__name__
@@ -358,14 +550,48 @@ async def _client_case(loop, c):
             obs.update(_classify(ex))
     if "outcome" not in obs:
         obs["outcome"] = "blocked"
+    state["done"] = True
     obs["t"] = loop.ticks - t0
     drain()
     obs["trace"] = trace
-    if client is not None:
+    st.prev_ids.extend(d.get("id") for d in raw if isinstance(d, dict) and d.get("method") == "initialize")
+    if sup_obj is not None and c.get("sup") is not None and list(sup_obj) != list(c["sup"]):
+        obs["sup_after"] = _json_safe(list(sup_obj))  # the caller's list was changed by the call
+    if track is True and client is not None:
         obs["tracked"], obs["batch"] = _tracked_obs(client)
-    for s in (in_send, in_recv, out_send, out_recv):
-        s.close()
     return obs
+
+
+async def _client_case(loop, c):
+    st = _Streams(c.get("wbuf"))
+    track = c.get("track")
+    client = _tracked_client() if track is True else (_BareClient() if track == "bare" else None)
+    try:
+        return await _client_call(loop, st, c, client)
+    finally:
+        st.close()
+
+
+async def _client_seq_case(loop, c):
+    """case = {"steps": [client case, ..], "share_list": bool}: consecutive calls on the SAME streams with the SAME tracked client
+    (and, with share_list, the same supported-versions list object whenever consecutive steps name the same list)."""
+    st = _Streams(None)
+    client = _tracked_client()
+    out = []
+    shared = {}
+    try:
+        for stp in c["steps"]:
+            stp = dict(stp, track=True)
+            if c.get("share_list") and stp.get("sup") is not None:
+                key = tuple(stp["sup"])
+                stp["_sup_obj"] = shared.setdefault(key, list(stp["sup"]))
+            o = await _client_call(loop, st, stp, client)
+            out.append(o)
+            if o["outcome"] == "transport":
+                break  # the streams are gone
+    finally:
+        st.close()
+    return {"steps": out}
 
 
 def _run_on_vloop(fn, cases):
@@ -384,6 +610,41 @@ def run_client(cases):
     return _run_on_vloop(_client_case, cases)
 
 
+def run_client_seq(cases):
+    return _run_on_vloop(_client_seq_case, cases)
+
+
+def harvest_constants():
+    """String and integer constants of the anchored modules' SOURCE (docstrings and long texts excluded)."""
+    import ast
+    from . import core
+
+    files = ["protocol/messages/initialize/send_messages.py", "protocol/types/versioning.py", "server/protocol_handler.py",
+             "server/session/memory.py", "server/session/base.py", "protocol/features/batching.py", "protocol/types/errors.py"]
+    strs, ints = set(), set()
+    for f in files:
+        try:
+            tree = ast.parse((core.REPO / "src" / "chuk_mcp" / f).read_text())
+        except Exception:
+            continue
+        doc = set()
+        for n in ast.walk(tree):
+            if isinstance(n, (ast.Module, ast.ClassDef, ast.FunctionDef, ast.AsyncFunctionDef)):
+                b = n.body[0] if n.body else None
+                if isinstance(b, ast.Expr) and isinstance(b.value, ast.Constant) and isinstance(b.value.value, str):
+                    doc.add(id(b.value))
+            if isinstance(n, ast.Expr) and isinstance(n.value, ast.Constant) and isinstance(n.value.value, str):
+                doc.add(id(n.value))  # attribute docstrings
+        for n in ast.walk(tree):
+            if isinstance(n, ast.Constant) and id(n) not in doc:
+                v = n.value
+                if isinstance(v, str) and 0 < len(v) <= 48 and "\n" not in v:
+                    strs.add(v)
+                elif isinstance(v, int) and not isinstance(v, bool):
+                    ints.add(v)
+    return sorted(strs), sorted(ints | {-x for x in ints})
+
+
 # ---------------------------------------------------------------------------------- end to end
 async def _handshake_case(loop, c):
     """Real client <-> real handler.  Both directions cross the pipe as JSON text."""
@@ -393,8 +654,9 @@ async def _handshake_case(loop, c):
 
     loop.tie = "events"
     handler = _new_handler()
-    to_client_send, to_client_recv = anyio.create_memory_object_stream(math.inf)
-    from_client_send, from_client_recv = anyio.create_memory_object_stream(math.inf)
+    buf = math.inf if c.get("buf") is None else c["buf"]  # 0 = both directions are rendezvous pipes
+    to_client_send, to_client_recv = anyio.create_memory_object_stream(buf)
+    from_client_send, from_client_recv = anyio.create_memory_object_stream(buf)
     trace = []
     obs = {"server": []}
     sids = []
